@@ -33,6 +33,12 @@ def run(ctx):
     ctx.add_family(agg)
     agg = run_family("C09onerror", mprogs, NAMES, dev=dev, invariants=INVS, perms=(0,), timeout=3000)
     ctx.add_family(agg)
+    # macros and fillers inside / around translations (C10's programs T4m, T6m, T7): the filler's output is part of the
+    # message it stands in, a named block written in a filler belongs to the translation opened around the use-macro,
+    # and the text and the translate calls are those of the machine -- which renders a macro as its body in place
+    tprogs = [p for p in F.c10_family(ctx.tier, rnd) if p["fam"].startswith(("C10:T4m", "C10:T6m", "C10:T7"))]
+    agg = run_family("C09i18n", tprogs, NAMES, dev=dev, invariants=INVS, perms=(0, 1), timeout=3000)
+    ctx.add_family(agg)
     # (2) inline equivalence on the ideal machine, via TLC on both programs
     # P8 (macroname) and P9 (assignments by code blocks stay inside the macro or filler) are not inline-equivalent by design
     # P10 (the macro is chosen by a variable at every use) has no static inlining; it is checked against the machine
